@@ -170,7 +170,7 @@ func families(run *vk.Run) []*family {
 		// entities below lists of lists and non-null list wrappers: faults of the
 		// fetches that collect their items from / merge into nested lists
 		mk("S-shapes", shapes, fedlab.SShapesUniverse(shapes), nil, func(r fedlab.FieldRef) int {
-			if r.Type == "Owner" || r.Field == "secret" || r.Field == "tags" || r.Field == "open" || r.Field == "ratio" || r.Field == "meta" {
+			if r.Type == "Owner" || r.Field == "secret" || r.Field == "tags" || r.Field == "open" || r.Field == "ratio" || r.Field == "meta" || r.Field == "nums" || r.Field == "code" {
 				return 1
 			}
 			return 0
